@@ -21,8 +21,10 @@ texts are `,`-joined (`_` = empty list), positions are byte offsets.
   cm.post <post> <comment_end> <separator> <is_last:0|1> -> panic | none | text
   cm.getend <post> <separator> <terminator> <is_last:0|1> -> panic | n
   cm.extranl <post> <comment_end> -> panic | 0 | 1      `has_extra_newline`
-  cm.preserved <ins> <outs>      -> ok | diff:<index>:<in|->:<out|->     oracle `commentsPreserved`
-  cm.words <ins> <outs>          -> ok | diff:<index>:<word|->:<word|->  oracle `wordsPreserved`
+  cm.preserved <o|m> <ins> <outs> -> ok | diff:<index>:<in|->:<out|->    oracle `commentsPreserved` (o: in
+                                    order) / `commentsPreservedUnordered` (m: as multisets, index in sorted order)
+  cm.words <o|m> <ins> <outs>     -> ok | missing:<index>:<word>          oracle `wordsPreserved` (o: the input's
+                                    words are a subsequence of the output's) / `wordsPreservedUnordered` (m)
   cm.payloads <ins> <outs>       -> ok | diff | panic   equal `CommentReducer` payload, concatenated
 -/
 namespace RF.Driver.Comment
@@ -56,6 +58,14 @@ def firstWordDiff : Nat → List (List Char) → List (List Char) →
   | i, a :: _, [] => some (i, some a, none)
   | i, [], b :: _ => some (i, none, some b)
   | i, a :: as, b :: bs => if a == b then firstWordDiff (i + 1) as bs else some (i, some a, some b)
+
+/-- greedy subsequence walk: the first word of `a` (index, word) that is not found in what is left of `b` -/
+def firstMissing (a b : List (List Char)) : Option (Nat × List Char) :=
+  let rec go : Nat → List (List Char) → List (List Char) → Option (Nat × List Char)
+    | _, [], _ => none
+    | i, w :: _, [] => some (i, w)
+    | i, w :: ws, x :: xs => if w == x then go (i + 1) ws xs else go i (w :: ws) xs
+  go 0 a b
 
 def allPayload (cs : List (List Char)) : Option (List Char) :=
   cs.foldr (fun c acc => match payload? c, acc with
@@ -144,20 +154,37 @@ def handle (op : String) (args : List String) : Option String :=
     match hasExtraNewline? p ce with
     | none => pure "panic"
     | some b => pure (bit b)
-  | "cm.preserved", [a, b] => do
+  | "cm.preserved", [m, a, b] => do
     let a ← decTexts a
     let b ← decTexts b
-    if commentsPreserved a b then pure "ok"
-    else match firstCommentDiff 0 a b with
-      | none => pure "diff:?:-:-"
-      | some (i, x, y) => pure s!"diff:{i}:{encOptChars x}:{encOptChars y}"
-  | "cm.words", [a, b] => do
+    if m == "o" then
+      if commentsPreserved a b then pure "ok"
+      else match firstCommentDiff 0 a b with
+        | none => pure "diff:?:-:-"
+        | some (i, x, y) => pure s!"diff:{i}:{encOptChars x}:{encOptChars y}"
+    else if m == "m" then
+      if commentsPreservedUnordered a b then pure "ok"
+      else
+        let sa := (a.map flatComment).mergeSort leChars
+        let sb := (b.map flatComment).mergeSort leChars
+        match firstWordDiff 0 sa sb with
+        | none => pure "diff:?:-:-"
+        | some (i, x, y) => pure s!"diff:{i}:{encOptChars x}:{encOptChars y}"
+    else none
+  | "cm.words", [m, a, b] => do
     let a ← decTexts a
     let b ← decTexts b
-    if wordsPreserved a b then pure "ok"
-    else match firstWordDiff 0 (a.flatMap commentWords) (b.flatMap commentWords) with
-      | none => pure "diff:?:-:-"
-      | some (i, x, y) => pure s!"diff:{i}:{encOptChars x}:{encOptChars y}"
+    if m == "o" then
+      if wordsPreserved a b then pure "ok"
+      else match firstMissing (a.flatMap commentWords) (b.flatMap commentWords) with
+        | none => pure "diff:?:-"
+        | some (i, w) => pure s!"missing:{i}:{encChars w}"
+    else if m == "m" then
+      if wordsPreservedUnordered a b then pure "ok"
+      else match firstMissing ((a.flatMap commentWords).mergeSort leChars) ((b.flatMap commentWords).mergeSort leChars) with
+        | none => pure "diff:?:-"
+        | some (i, w) => pure s!"missing:{i}:{encChars w}"
+    else none
   | "cm.payloads", [a, b] => do
     let a ← decTexts a
     let b ← decTexts b
